@@ -1069,7 +1069,7 @@ def path_relations(body, facts, path):
         elif t["k"] == "assert" and t.get("target") == d_:
             c = pe.operand(t["cond"], loc)
             out.append(normalize_cmp(c, ("eq", 1 if t["expected"] else 0)))
-    return out
+    return expand_slice_get(expand_ordering(out))
 
 
 def _replace(e, fn):
@@ -1294,7 +1294,37 @@ def normalize_cmp(c, v):
 
 def relations_at(body, bb, facts=None, inline=True):
     rels = [normalize_cmp(c, v) for (_, _, c, v) in guards_at(body, bb, facts, inline)]
-    return one_bit_twins(expand_classifiers(body, facts or body.facts, expand_ordering(expand_flag_phi(rels))))
+    return one_bit_twins(expand_classifiers(body, facts or body.facts, expand_slice_get(expand_ordering(expand_flag_phi(rels)))))
+
+
+def expand_slice_get(rels):
+    """`match s.get(n..)` / `s.get(..n)` / `s.get_mut(..)`: `Some` exactly when n <= s.len() - the arm taken is a bound on n"""
+    out = list(rels)
+    for r in rels:
+        if not r or r[0] not in ("truth", "notin") or not (isinstance(r[1], tuple) and r[1] and r[1][0] == "discr"):
+            continue
+        c = r[1][1]
+        while isinstance(c, tuple) and c and c[0] in ("ref", "deref"):
+            c = c[1]
+        if not (isinstance(c, tuple) and c and c[0] == "call" and c[1].rsplit("::", 1)[-1] in ("get", "get_mut") and "slice" in c[1] and len(c[2]) == 2):
+            continue
+        rng = c[2][1]
+        if not (isinstance(rng, tuple) and rng and rng[0] == "agg" and isinstance(rng[1], tuple) and any(k in str(rng[1]) for k in ("RangeFrom", "RangeTo")) and "Inclusive" not in str(rng[1]) and len(rng[2]) == 1):
+            continue
+        n = rng[2][0]
+        ln = ("call", "core::slice::<impl [T]>::len", (c[2][0],))
+        if r[0] == "truth":
+            some = r[2] == 1
+        else:
+            vals = set(r[2])
+            if vals == {0}:
+                some = True
+            elif vals == {1}:
+                some = False
+            else:
+                continue
+        out.append(("le", n, ln) if some else ("lt", ln, n))
+    return out
 
 
 def expand_flag_phi(rels):
